@@ -160,7 +160,7 @@ Definition helpers_of (s : wstate) : list bline :=
      [ BT (bs "set " ++ q ++ bs "_i=0" ++ q);
        BCall (bs "_slg") (bs "%2");
        BLabel (bs "_sch_loop");
-       BOpen (bs "if " ++ q ++ bs "!_i!" ++ q ++ bs " lss " ++ q ++ bs "!_len!" ++ q ++ bs " ");
+       BOpen (bs "if !_i! lss !_len! ");
        BT (bs "for /f " ++ q ++ bs "delims=" ++ q ++ bs " %%i in (" ++ q ++ bs "%2_!_i!" ++ q ++ bs ") do set " ++ q ++ bs "_v=!%%i!" ++ q);
        BT (bs "set " ++ q ++ bs "!%1!_!_i!=!_v!" ++ q);
        BT (bs "set /A " ++ q ++ bs "_i=!_i!+1" ++ q);
@@ -170,13 +170,15 @@ Definition helpers_of (s : wstate) : list bline :=
      [ BCall (bs "_slg") (bs "!%1!");
        BT (bs "set " ++ q ++ bs "_i=!_len!" ++ q);
        BLabel (bs "_sah_loop");
-       BOpen (bs "if " ++ q ++ bs "!_i!" ++ q ++ bs " lss " ++ q ++ bs "%2" ++ q ++ bs " ");
+       BOpen (bs "if !_i! lss %2 ");
        BT (bs "set " ++ q ++ bs "!%1!_!_i!=%3" ++ q);
        BT (bs "set /A " ++ q ++ bs "_i=!_i!+1" ++ q);
        BGoto (bs "_sah_loop");
        BElse [];
+       BOpen (bs "if !_len! leq %2 ");
        BT (bs "set /A " ++ q ++ bs "_len=%2+1" ++ q);
        BCall (bs "_sls") (bs "!%1! !_len!");
+       BClose;
        BClose;
        BT (bs "set " ++ q ++ bs "!%1!_%2=!_fa0!" ++ q) ] else [])
   ++ (if sls then add_helper (bs "slice length set") (bs "_sls") [ BT (bs "set " ++ q ++ bs "%1_len=%2" ++ q) ] else [])
@@ -190,7 +192,7 @@ Definition helpers_of (s : wstate) : list bline :=
        BT (bs "set /A " ++ q ++ bs "_l=%_l%+1" ++ q);
        BGoto (bs "_stlhl"); BLabel (bs "_stlhle") ] else [])
   ++ (if w_ech s then add_helper (bs "echo") (bs "_ech")
-     [ BT (bs "if " ++ q ++ bs "!_fa0!" ++ q ++ bs " neq " ++ q ++ q ++ bs " (echo !_fa0!) else echo.") ] else []).
+     [ BT (bs "echo.!_fa0!") ] else []).
 
 Definition wcmp_text (vt : vtype) (op : cmpop) : option (bytes * bool) :=   (* operator, quote operands *)
   if is_slice vt then None else
